@@ -313,7 +313,19 @@ def concretise(rec, seed, rep=0):
     xf = lo.copy()
     xf[ih] = lo[ih] + fh * (hi[ih] - lo[ih])
     xf[iv] = lo[iv] + fv * (hi[iv] - lo[iv])
-    return dict(fam=s["fam"], axes=s["axes"], amp=num(rec["amp"]), size=num(rec["size"]), lo=lo.tolist(), hi=hi.tolist(), xf=xf.tolist(),
+    xf_repr = "float"
+    if loc["kind"] == "int":
+        # integer lattice points strictly inside the box (not the origin: a stagnation / singular point of the flows)
+        alo, ahi = math.floor(lo[ih]) + 1, math.ceil(hi[ih]) - 1      # integers strictly inside (lo, hi)
+        blo, bhi = math.floor(lo[iv]) + 1, math.ceil(hi[iv]) - 1
+        if alo <= ahi and blo <= bhi and float(lo[io]).is_integer():
+            for _ in range(8):
+                a, b = int(rng.integers(alo, ahi + 1)), int(rng.integers(blo, bhi + 1))
+                if (a, b) != (0, 0):
+                    xf[ih], xf[iv] = float(a), float(b)
+                    xf_repr = "int64" if loc["i"] == 1 else "intlist"
+                    break
+    return dict(xf_repr=xf_repr, fam=s["fam"], axes=s["axes"], amp=num(rec["amp"]), size=num(rec["size"]), lo=lo.tolist(), hi=hi.tolist(), xf=xf.tolist(),
                 max_strain=s["lim_e1"] / 10.0, steps=(s["steps"] or None), ih=ih, iv=iv)
 
 
@@ -432,6 +444,11 @@ def run_pathline(job):
     a = concretise(rec, seed, rep)
     envf = {"rate": a["amp"], "U": a["amp"], "d": a["size"]}
     lo, hi, xf = np.array(a["lo"]), np.array(a["hi"]), np.array(a["xf"])
+    xf_arg = xf
+    if a.get("xf_repr") == "int64":
+        xf_arg = xf.astype(np.int64)
+    elif a.get("xf_repr") == "intlist":
+        xf_arg = [int(v) for v in xf]
     ih, iv = a["ih"], a["iv"]
     interior = bool(lo[ih] < xf[ih] < hi[ih] and lo[iv] < xf[iv] < hi[iv])
     ev = [dict(tid=tid, ev="Call", scen=rec["scen"], interior=interior, out="returned")]
@@ -439,7 +456,7 @@ def run_pathline(job):
     nev = [0]
     try:
         u, L = build_flow(a["fam"], a["axes"], envf)
-        ts, pos = pathlines.get_pathline(xf, budgeted(u, nev), L, lo, hi, a["max_strain"], regular_steps=a["steps"])
+        ts, pos = pathlines.get_pathline(xf_arg, budgeted(u, nev), L, lo, hi, a["max_strain"], regular_steps=a["steps"])
     except NoReturn as ex:
         ev[0]["out"] = "NoReturn"
         info["exc"] = repr(ex)
